@@ -94,6 +94,61 @@ pub fn structured_cases(rng: &mut ChaCha8Rng, count: usize) -> Vec<Value> {
     out
 }
 
+/// Named graph shapes that shortcuts are typically written for (or forget): complete graphs, complete
+/// bipartite graphs, stars, wheels, paths, cycles, ladders, a clique with a pendant path, two cliques sharing
+/// a node, a shape plus isolated nodes, and the same with self-loops sprinkled in; directed versions with all
+/// edges one way or both ways.  Small enough (4-9 nodes) for the exact oracles.
+pub fn shape_cases(rng: &mut ChaCha8Rng, count: usize) -> Vec<Value> {
+    let mut out = vec![];
+    let mut i = 0usize;
+    while out.len() < count {
+        let n: i32 = 4 + (i % 5) as i32; // 4..8
+        let shape = (i / 5) % 11;
+        let variant = i / 55; // 0: undirected, 1: directed one way, 2: directed both ways, 3: undirected + self-loops, 4: directed + self-loops
+        let directed = matches!(variant % 5, 1 | 2 | 4);
+        let both = variant % 5 == 2;
+        let loops = matches!(variant % 5, 3 | 4);
+        let mut es: Vec<(i32, i32)> = vec![];
+        let mut extra_nodes = 0;
+        match shape {
+            0 => { for a in 1..=n { for b in (a + 1)..=n { es.push((a, b)); } } }                       // complete
+            1 => { let h = n / 2; for a in 1..=h { for b in (h + 1)..=n { es.push((a, b)); } } }        // complete bipartite
+            2 => { for b in 2..=n { es.push((1, b)); } }                                                // star
+            3 => { for b in 2..=n { es.push((1, b)); es.push((b, if b == n { 2 } else { b + 1 })); } }  // wheel
+            4 => { for a in 1..n { es.push((a, a + 1)); } }                                             // path
+            5 => { for a in 1..=n { es.push((a, a % n + 1)); } }                                        // cycle
+            6 => { let h = n / 2; for a in 1..h { es.push((a, a + 1)); es.push((a + h, a + h + 1)); } for a in 1..=h { es.push((a, a + h)); } } // ladder
+            7 => { let k = n - 2; for a in 1..=k { for b in (a + 1)..=k { es.push((a, b)); } } es.push((k, k + 1)); es.push((k + 1, k + 2)); } // clique + pendant path
+            8 => { let h = (n + 1) / 2; for a in 1..=h { for b in (a + 1)..=h { es.push((a, b)); } } for a in h..=n { for b in (a + 1)..=n { es.push((a, b)); } } } // two cliques sharing node h
+            9 => { let k = n - 1; for a in 1..=k { for b in (a + 1)..=k { es.push((a, b)); } } extra_nodes = 2; }  // clique + isolated nodes
+            _ => { for a in 1..=(n - 2) { es.push((a, a + 1)); } es.push((n - 2, 1)); extra_nodes = 1; }          // cycle + one more component (edge n-1 - n)
+        }
+        if shape == 10 { es.push((n - 1, n)); }
+        es.sort();
+        es.dedup();
+        es.retain(|(a, b)| a != b);
+        let total = n + extra_nodes;
+        let specs = SpecsJ { directed, multi: false, loops, dedupe: 2, missing: 0, loopfalse: 1 };
+        let wmode = (i / 5) % 4;
+        let mut ea: Vec<EdgeArg> = vec![];
+        for (j, (u, v)) in es.iter().enumerate() {
+            let w: i64 = match wmode { 0 => NAN_W, 1 => 2, 2 => 1 + (*u as i64 % 3), _ => if j == 0 { 5 } else { 1 } };
+            let (a, b) = if !directed && rng.gen_bool(0.5) { (*v, *u) } else { (*u, *v) };
+            ea.push((a, b, w, 0));
+            if both { ea.push((b, a, w, 0)); }
+        }
+        if loops {
+            for x in 1..=total { if x % 2 == 1 { ea.push((x, x, if wmode == 0 { NAN_W } else { 1 + (x as i64 % 3) }, 0)); } }
+        }
+        ea.shuffle(rng);
+        let mut names: Vec<i32> = (1..=total).collect();
+        names.shuffle(rng);
+        out.push(case_json(specs, &[Op::AddNodes(names.into_iter().map(|x| (x, 0)).collect()), Op::AddEdges(ea)], "shape"));
+        i += 1;
+    }
+    out
+}
+
 /// Trees with very uneven levels: a star with a tail (broom), two stars joined by a path, a caterpillar.
 /// A level-synchronous search meets a level much wider than what is left to find.  Paths are unique.
 pub fn broom_cases(rng: &mut ChaCha8Rng, count: usize, minn: i32, maxn: i32) -> Vec<Value> {
